@@ -230,6 +230,9 @@ func c07Run(r *core.Run) {
 		r.Fault("attacker_encrypt")
 	}
 	enc := world.Present(xml, t.Int(4, "c07.compress") == 1, 6)
+	if t.Int(6, "c07.ambient") == 1 {
+		s.NeighbourNoise(enc)
+	}
 	resp, out := s.Node.ValidateResponse(enc)
 	r.Steps++
 	r.Logf("mode=%s (%s) embed=%s validate=%v clock=%s keyfault=%s key=%s place=%s n=%d -> %s %s", mode, detail, embed, validate, clk, keyFault, ks, placeNames[place], n, out.Class(), world.ErrClass(out.Err))
